@@ -69,7 +69,7 @@ def run_tlc(spec, cfg, *, workers=None, env=None, simulate=None, depth=None, see
     """Run TLC on SPEC/spec.tla with SPEC/cfg; returns TlcResult. Raises MachineryFailure on
     timeout or when the JVM/TLC itself fails (parse error, OOM, ...)."""
     meta = workdir("tlc")
-    cmd = ["java", "-XX:+UseParallelGC", "-Xmx" + heap]
+    cmd = ["java", "-XX:+UseParallelGC", "-Xmx" + heap, "-Djava.io.tmpdir=" + str(meta)]     # (SANY unpacks modules there)
     if xss:
         cmd.append("-Xss" + xss)
     if dfs:
